@@ -1,5 +1,5 @@
 #!/usr/bin/env python3
-"""score.py [--refactor-dir DIR] [--only-own]: the two regression suites of the checker, evaluated in memory.
+"""score.py [--refactor-dir DIR] [--props C07,C18] [-v]: the two regression suites of the checker, evaluated in memory.
 
 * /verif/refactorings/<ID>_<k>/patch.diff : behaviour-preserving refactorings written by sub-agents.  Every one of the twenty
   rule sets is run on each; wanted outcome: silent.  'refused' = exit 2 (shape not recognised / analysis error), 'ALARM' =
@@ -75,6 +75,9 @@ def main():
         rdir = sys.argv[sys.argv.index('--refactor-dir') + 1]
     refs = sorted(glob.glob(os.path.join(rdir, '*', 'patch.diff'))) + sorted(glob.glob(os.path.join(rdir, '*', 'REFACTOR', '*', 'patch.diff')))
     seeds = sorted(glob.glob(os.path.join(HERE, 'seeded', '*_*', 'patch.diff')))
+    if '--props' in sys.argv:  # only the rule sets named (after a change confined to their modules; mind imported rules: C10<->C11, C03<->C12)
+        PROPS[:] = sys.argv[sys.argv.index('--props') + 1].split(',')
+        seeds = [p for p in seeds if os.path.basename(os.path.dirname(p))[:3] in PROPS]
     jobs = [(p, prop) for p in refs for prop in PROPS] + [(p, os.path.basename(os.path.dirname(p))[:3]) for p in seeds]
     res = {}
     with ProcessPoolExecutor(max_workers=16) as ex:
